@@ -116,6 +116,10 @@ def _case(i):
     rng = C.rng_for(seed, PID, tier, i)
     res = {'i': i, 'items': [], 'hist': {}}
     kind, text = gen_text(rng, tier)
+    if i < 2:
+        # always present: one line longer than 64 KiB made of multi-byte characters (3-byte, then 4-byte)
+        kind = 'long_multibyte_line'
+        text = 'a' * rng.randint(0, 3) + (['한', '😀'][i]) * [30000, 23000][i] + ['\n', '\nsecond é line\n'][i]
     sb = text.encode('utf-8')
     res['hist']['text:' + kind] = 1
     res['hist']['stdin_bytes'] = len(sb)
